@@ -9,6 +9,7 @@ import (
 	"encoding/json"
 	"fmt"
 	"os"
+	"path"
 	"regexp"
 	"runtime"
 	"runtime/debug"
@@ -342,6 +343,11 @@ func MatchKnown(known []KnownFinding, prop, finding string) *KnownFinding {
 		}
 		if k.Finding == finding {
 			return k
+		}
+		if strings.Contains(k.Finding, "*") {
+			if ok, _ := path.Match(k.Finding, finding); ok {
+				return k
+			}
 		}
 	}
 	return nil
